@@ -365,10 +365,14 @@ VH_TARGET(predicate, 1,
   c.note(std::string(exact ? "exact" : "pattern") + " '" + vh::show(pat) + "' vs '" + vh::show(text) + "'\n");
   Tri want = exact ? ref_exact(pat, text) : ref_pattern(pat, text);
   std::unique_ptr<sdkm::Predicate> p;
+  bool plain_pattern = rd.chance(50);
   {
-    Held hp(pat, "");  // the constructor documents no termination requirement either; keep it plain
+    // the pattern too is a view: half of the time the bytes after it would change its meaning
+    Held hp(pat, plain_pattern ? "" : "#~");
     p = sdkm::PredicateFactory::GetPredicate(hp.view(), exact ? sdkm::PredicateType::kExact : sdkm::PredicateType::kPattern);
+    hp.scribble();
   }
+  c.tag(plain_pattern ? "pattern-terminated" : "pattern-followed-by-garbage");
   const char *post = rd.coin() ? "#~" : "count";
   Held ht(text, post);
   bool got = p->Match(ht.view());
@@ -1223,9 +1227,7 @@ VH_TARGET(views, 2,
           exp.push_back(expect_of(in, i, v));
       for (auto *s : by_inst[i])
         s->used = false;
-      for (auto *s : drops)
-        if (s->used && s->scope == mid)
-          s->used = s->used;  // drop-only streams claimed by an earlier instrument stay claimed
+      // (drop-only streams claimed by an earlier instrument stay claimed)
       std::vector<Stream *> claimed_drops;
       bool ok = true;
       std::string first_why;
